@@ -246,6 +246,62 @@ CLAIMED["C16"] = {
     "design_ref": "DESIGN.md §3 C16",
 }
 
+CLAIMED["C01"] = {
+    "text": "Composition theorems over the whole model (iterator, parser, importer, tables, queries, printer): for text "
+            "whose feature lines are renderings of line specifications in ONE dialect (any separator, trailing "
+            "semicolon, key=value / key value, quoting, repeated keys or comma lists, flags, percent-escapes, extra "
+            "columns, '.' coordinates; directive/comment/blank/FASTA lines allowed) with unique single-valued IDs, if "
+            "the inspection window votes the file's dialect and every line's key order agrees with the voted first-seen "
+            "order, then create_db stores one row per line in input order, all_features returns features with the "
+            "lines' columns, extra columns and decoded attributes, and with keep_order each prints to its original line "
+            "byte for byte (printed_identical); the window hypothesis is discharged for files whose window lines each "
+            "exhibit the dialect (printed_identical_of_window); reopening gives the same dialect, directives, counters, "
+            "rows and query results (reopen_same); re-importing the printed features gives the same tables "
+            "(reimport_equivalent); per line: the supplied-dialect parse of a rendered line returns its mapping, the "
+            "keep_order print under any consistent foreign order reproduces it, rows round-trip through storage, and the "
+            "JSON storage form round-trips (C17). Not covered by a theorem: sort_attribute_values=True, the GTF importer "
+            "and non-ID id_specs (correspondence and oracle only). Correspondence end to end on generated files of "
+            "0-30 lines around checklines and on the repository's data files; oracle: byte comparison after import, "
+            "reopen, re-import.",
+    "note": "Trusted: Lean kernel + standard axioms; the models of the parser, iterator, importer and tables as validated "
+            "by the correspondence; the single-dialect domain (i)/(ii) is the documented design of gffutils and is decided "
+            "for each generated file from the real database's voted dialect.",
+    "technique": "Lean 4 composition of the per-layer theorems (C02, C04, C07, C08, C09, C17) + end-to-end correspondence",
+    "design_ref": "DESIGN.md §3 C01",
+}
+CLAIMED["C13"] = {
+    "text": "Lean theorems over the iterator model for all inputs: the dialect peek takes the first min(n+1, len) items "
+            "and leaves a one-shot source unchanged (peek_preserves); all seven input forms iterate to the specification "
+            "for every checklines, supplied or inferred dialect, with or without transform (iterate_eq); text forms and "
+            "feature forms of the same annotation give the identical (dialect, features) result under the explicit "
+            "hypothesis that every line parses alike with the inferring parser and with the voted dialect "
+            "(forms_equivalent); the transform is applied exactly once per item in order and exactly the falsy results "
+            "are dropped (transform_once); inspect reports exact multiset counts for every look_for and limit. "
+            "Correspondence over 7 forms x checklines 0..n+2 x 6 transforms for n = 1..15 (LF and CRLF), create_db over "
+            "all forms, instrumented generators counting next() calls; oracle: cross-form equality of sequences, "
+            "dialects and database projections, transform call logs, inspect counts.",
+    "note": "Trusted: Lean kernel + standard axioms; gzip, tempfile, textwrap.dedent and all_features() order are "
+            "exercised, not modelled; a Feature's truthiness (len >= 1) is part of the model; empty input excluded.",
+    "technique": "Lean 4 theorems (list induction, filterMap laws) + differential correspondence with instrumented sources",
+    "design_ref": "DESIGN.md §3 C13",
+}
+CLAIMED["C14"] = {
+    "text": "Lean theorems: the four line classes are exactly those of the property text; after a full pass the "
+            "iterator's directive list is the '##' lines of the body (everything before '##FASTA' or a '>' header) "
+            "without their '##', in order; the features are the parses of the body lines that are non-empty and do not "
+            "start with '#'; nothing at or after the FASTA start is a feature or directive; and the list create_db "
+            "stores and a reopened FeatureDB reads is that same list for every position of every directive relative to "
+            "the inspection window and every checklines (db_directives, over an explicit shared-list-object model; "
+            "the pre-repair code is characterised exactly and refuted by a decide witness = defect D1, repaired). "
+            "Correspondence and oracle: interleavings of directive / comment / blank / feature lines with 0-14 features "
+            "before each directive, with and without a FASTA tail, path and from_string input, varied checklines; "
+            "DataIterator.directives, db.directives after import and after reopening.",
+    "note": "Trusted: Lean kernel + standard axioms; sqlite rowid order of the directives table; CPython drops the "
+            "suspended peek generator.",
+    "technique": "Lean 4 state-machine invariant over a list-object store + differential correspondence",
+    "design_ref": "DESIGN.md §3 C14",
+}
+
 PENDING_REASON = "check not built yet in this round of work (planned: DESIGN.md §3); nothing is claimed for it"
 
 
